@@ -165,12 +165,12 @@ fn ripobs(args: &[&str]) -> Obs {
     v.push(bgi.screen.len() as i64);
     v.push(hash(&bgi.screen));
     // epilogue: make the viewport visible — plot a fixed set of probe pixels in colour 9 (write mode as left by the
-    // stream), then fill the viewport with the current fill style
+    // stream), then fill the part of the viewport that lies in the top 8 rows with the current fill style
     for (x, y) in [(0, 0), (639, 0), (640, 0), (0, 349), (639, 349), (0, 350), (100, 100), (320, 175), (700, 10), (1295, 1295), (5, 400)] {
         bgi.put_pixel(x, y, 9);
     }
     v.push(hash(&bgi.screen));
-    bgi.clear_viewport();
+    bgi.bar(0, 0, 1295, 7);
     v.push(bgi.screen.len() as i64);
     v.push(hash(&bgi.screen));
     Ok(v)
